@@ -464,6 +464,21 @@ def h5J (j : Json) : M Json := do
   let r := save prev w ow
   pure (Json.mkObj [("outcome", Json.str "ok"), ("raised", Json.bool r.raised), ("disk", diskJ r.disk)])
 
+def loadJ (j : Json) : M Json := do
+  match ← jStr (← jField j "q") with
+  | "autodetect" =>
+    let p : Dnp.Load.PathInfo := { ext := ← jStr (← jField j "ext"), isDir := (jFieldOpt j "isDir").isSome,
+                                   listing := ← jStrList (← jField j "listing") }
+    pure (Json.mkObj [("outcome", "ok"), ("result", match Dnp.Load.autodetect p with
+      | .fmt f => Json.str (if Dnp.Load.dispatches f then f else f ++ "!nodispatch")
+      | .typeError => Json.str "TypeError")])
+  | "scale" => do
+    pure (Json.mkObj [("outcome", "ok"), ("result", Json.num (Dnp.Load.scaleExp (← jStr (← jField j "unit"))))])
+  | "mapping" => do
+    let r := Dnp.Load.parseMapping (← jStr (← jField j "val"))
+    pure (Json.mkObj [("outcome", "ok"), ("keys", strsJ r.1), ("exp", Json.num r.2)])
+  | q => throw s!"unknown load query {q}"
+
 partial def loop (h : IO.FS.Stream) (out : IO.FS.Stream) (s : Store) : IO Unit := do
   let line ← h.getLine
   if line.isEmpty then return ()
@@ -473,6 +488,12 @@ partial def loop (h : IO.FS.Stream) (out : IO.FS.Stream) (s : Store) : IO Unit :
     out.putStrLn (Json.compress (Json.mkObj [("outcome", Json.str ("driver-error:" ++ e))]))
     loop h out s
   | .ok j =>
+    if (j.getObjVal? "op").toOption == some (Json.str "load") then
+      match loadJ j with
+      | .ok r => do out.putStrLn (Json.compress r); loop h out s
+      | .error e => do
+        out.putStrLn (Json.compress (Json.mkObj [("outcome", Json.str ("driver-error:" ++ e))])); loop h out s
+    else
     if (j.getObjVal? "op").toOption == some (Json.str "h5") then
       match h5J j with
       | .ok r => do out.putStrLn (Json.compress r); loop h out s
